@@ -85,9 +85,8 @@ def shard(rec, tier, index, n_shards):
     for text in shapes[index::n_shards]:
         target, tree = gen.parse(text)
         orders = gen.tensor_orders(target, tree)
-        for _ in range(plan["fmt"]):
-            formats = gen.random_formats(rng, orders)
-            for _ in range(plan["inp"]):
+        for k_, formats in enumerate(gen.format_plan(rng, orders, plan["fmt"])):
+            for _ in range(plan["inp"] * (4 if k_ == 0 else 1)):  # the all-compressed assignment gets more inputs
                 case = engine.build_case(rng, target, tree, formats, origin="curated")
                 k = do_case(rec, case, one_request=(n % 2 == 0))
                 n += 1
